@@ -1,0 +1,31 @@
+//go:build verif
+
+// Contracts for the verifier in /verif (comment-only; adds no code).
+package cmd
+
+//@ function errorsOf Int
+
+// every exit of these commands is a failure exit
+//@ extern os.Exit(code)
+//@   requires [non-zero-status] {C20} code != 0
+
+// `numscript check`: the command returns normally (status 0) only when there is no error-severity diagnostic,
+// and stops with a non-zero status otherwise
+//@ func check
+//@   assert [no-error-no-exit] {C20} errorsCount == 0 && errorsCount == errorsOf(res.Diagnostics)
+
+// `numscript run`: returns normally only when parsing and execution both succeeded
+//@ func run
+//@   assert [failure-exits] {C20} err == nil && len(parseResult.Errors) == 0
+
+// reading the inputs (files, --raw, stdin): NOT verified - what the decoders produce is outside the model; the
+// contracts only say which fields of the options they may set
+//@ func (*inputOpts).fromRaw
+//@   trusted
+//@   modifies o.Script, o.Variables, o.Meta, o.Balances
+//@ func (*inputOpts).fromStdin
+//@   trusted
+//@   modifies o.Script, o.Variables, o.Meta, o.Balances
+//@ func (*inputOpts).fromOptions
+//@   trusted
+//@   modifies o.Script, o.Variables, o.Meta, o.Balances
